@@ -166,6 +166,7 @@ type Script struct {
 	declared map[string]string // symbol -> sort (for consts) or signature
 	counter  int
 	sorts    map[string]bool
+	defs     map[string]string // defined constant -> its definition
 }
 
 func newScript() *Script {
@@ -222,7 +223,38 @@ func (s *Script) define(prefix, sort, t string) string {
 	}
 	n := s.fresh(prefix, sort)
 	s.assert(eq(n, t))
+	if s.defs == nil {
+		s.defs = map[string]string{}
+	}
+	s.defs[n] = t
 	return n
+}
+
+// maxSmallLit: an upper bound of a term built from small literals and ite, looking through definitions.
+func (s *Script) maxSmallLit(t string, depth int) (int64, bool) {
+	if v, ok := isSmallLit(t, 64); ok {
+		return v, true
+	}
+	if depth > 8 {
+		return 0, false
+	}
+	if d, ok := s.defs[t]; ok {
+		return s.maxSmallLit(d, depth+1)
+	}
+	if strings.HasPrefix(t, "(ite ") {
+		_, args, ok := splitArgs(t)
+		if ok && len(args) == 3 {
+			a, ok1 := s.maxSmallLit(args[1], depth+1)
+			b, ok2 := s.maxSmallLit(args[2], depth+1)
+			if ok1 && ok2 {
+				if b > a {
+					a = b
+				}
+				return a, true
+			}
+		}
+	}
+	return 0, false
 }
 
 func (s *Script) mark() int { return len(s.lines) }
